@@ -66,6 +66,23 @@ func (r *Registry) add(proc Processer) {
 		return
 	}
 	r.lookup[id] = proc
+	// A child becomes its parent's child in the same step in which it takes its
+	// id (and ceases to be one in the same step in which it gives it up, see
+	// removeProcess): the parent's child map never disagrees with the registry.
+	if p, ok := proc.(*process); ok && p.context.parentCtx != nil {
+		p.context.parentCtx.children.Set(id, p.pid)
+	}
 	r.mu.Unlock()
 	proc.Start()
+}
+
+// removeProcess unregisters the given process and takes it out of its parent's
+// child map, atomically with respect to add.
+func (r *Registry) removeProcess(p *process) {
+	r.mu.Lock()
+	defer r.mu.Unlock()
+	delete(r.lookup, p.pid.ID)
+	if p.context.parentCtx != nil {
+		p.context.parentCtx.children.Delete(p.pid.ID)
+	}
 }
